@@ -117,8 +117,14 @@ func (req *request) Marshal(buf []byte) ([]byte, error) {
 func (req *request) Unmarshal(data []byte) (uint64, error) {
 	var offset uint64
 	var n uint64
+	if checkVarint(data[offset:]) == 0 {
+		return 0, errShortBuffer
+	}
 	n = code.DecodeVarint(data[offset:], &req.Seq)
 	offset += n
+	if !checkBytes(data[offset:]) {
+		return 0, errShortBuffer
+	}
 	if data[offset] > 127 {
 		n = code.DecodeBytes(data[offset:], &req.Upgrade)
 	} else if data[offset] > 0 {
@@ -129,12 +135,18 @@ func (req *request) Unmarshal(data []byte) (uint64, error) {
 		n = 1
 	}
 	offset += n
+	if !checkBytes(data[offset:]) {
+		return 0, errShortBuffer
+	}
 	if data[offset] > 0 {
 		n = code.DecodeString(data[offset:], &req.ServiceMethod)
 	} else {
 		n = 1
 	}
 	offset += n
+	if !checkBytes(data[offset:]) {
+		return 0, errShortBuffer
+	}
 	if data[offset] > 127 {
 		n = code.DecodeBytes(data[offset:], &req.Args)
 	} else if data[offset] > 0 {
@@ -232,14 +244,23 @@ func (res *response) Marshal(buf []byte) ([]byte, error) {
 func (res *response) Unmarshal(data []byte) (uint64, error) {
 	var offset uint64
 	var n uint64
+	if checkVarint(data[offset:]) == 0 {
+		return 0, errShortBuffer
+	}
 	n = code.DecodeVarint(data[offset:], &res.Seq)
 	offset += n
+	if !checkBytes(data[offset:]) {
+		return 0, errShortBuffer
+	}
 	if data[offset] > 0 {
 		n = code.DecodeString(data[offset:], &res.Error)
 	} else {
 		n = 1
 	}
 	offset += n
+	if !checkBytes(data[offset:]) {
+		return 0, errShortBuffer
+	}
 	if data[offset] > 127 {
 		n = code.DecodeBytes(data[offset:], &res.Reply)
 	} else if data[offset] > 0 {
